@@ -16,24 +16,30 @@ def s(v):
     return str(v)
 
 
+def gate_name(term):
+    import hashlib
+    return hashlib.sha1(term.encode()).hexdigest()[:20] + ".go"
+
+
 def _gate(tok):
     g = os.environ.get("VP_GATES")
     if not g:
         return
-    one, allg = os.path.join(g, tok + ".go"), os.path.join(g, "ALL.go")
+    one, allg = os.path.join(g, gate_name(tok)), os.path.join(g, "ALL.go")
     while not (os.path.exists(one) or os.path.exists(allg)):
         time.sleep(0.002)
 
 
 @python.define(outputs=["out"])
-def F(a=None, b=None, c=None, d=None, e=None, tag: str = "F", fail: bool = False, gate: bool = False):
+def F(a=None, b=None, c=None, d=None, e=None, tag: str = "F", fail: bool = False, gate: bool = False,
+      failtok: str = ""):
     """returns the term tag(a=..,b=..); logs start/end; optional gate and failure"""
     args = {k: v for k, v in (("a", a), ("b", b), ("c", c), ("d", d), ("e", e)) if v is not None}
     term = tag + "(" + ",".join(k + "=" + s(v) for k, v in args.items()) + ")"
     evlog.emit("start", node=tag, term=term)
     if gate:
         _gate(term)
-    if fail:
+    if fail or (failtok and any(failtok == v for v in args.values())):
         evlog.emit("fail", node=tag, term=term)
         raise ValueError("boom-" + term)
     evlog.emit("end", node=tag, term=term)
